@@ -442,6 +442,20 @@ Theorem reachable_unstore_leftovers_collected : forall e ops d j h s' r,
 Proof. exact reachable_unstore_leftovers_p. Qed.
 Print Assumptions reachable_unstore_leftovers_collected.
 
+(* --- the dimension-record-cache load is a boundary (the SELECTs issued when the cache is empty; put / ingest / transfer /
+   import / expandDataId load it): expandDataId never changes tables, artifacts, staging area or the undo-log stack, whatever the
+   fault and wherever it is called; a fault AT the load raises, changes nothing and leaves the cache unloaded *)
+Theorem expand_changes_nothing : forall g s s' r, exec_op shipped (Expand g) s = (s', r) ->
+  cur s' = cur s /\ fs s' = fs s /\ ext s' = ext s /\ ptr s' = ptr s.
+Proof. exact expand_untouched_p. Qed.
+Print Assumptions expand_changes_nothing.
+
+Theorem cache_load_fault_leaves_cache_unloaded : forall g s s' r,
+  dcache s = None -> fuse s = Some 0%nat -> exec_op shipped (Expand g) s = (s', r) ->
+  r = Raised (hard s) /\ dcache s' = None /\ cur s' = cur s /\ fs s' = fs s /\ fuse s' = None.
+Proof. exact cache_load_fault_p. Qed.
+Print Assumptions cache_load_fault_leaves_cache_unloaded.
+
 (* non-vacuity: the hypotheses are satisfiable by reachable, non-trivial runs *)
 Example block_raises_after_work :
   let '(s', r) := exec shipped (PBlock [POp (Put 0 1); POp (Ingest Move 2); POp (Assoc 0); PFail]) s_one in
